@@ -186,6 +186,30 @@ GROUPS = {
              "    cases hr : w.groupRefuses <;> (try (obtain ⟨k, rfl⟩ := hg g hv)) <;> spawn_eval <;> (try simp_all)"),
         ],
     },
+    "retry": {
+        "import": "Haiway.Bridge.Retry", "open": "Haiway Haiway.MiniPy Haiway.Bridge.Retry",
+        "defs": {
+            **{name: Target("src/haiway/helpers/retries.py", None, f"{outer}.wrapped", ["args", "kwargs"], {},
+                            {("ctx", "log_error"): (170, ["*"])},
+                            ext_functions={"getattr": (173, 3), "repr": (174, 1), sleeper: (171, 1)},
+                            callables={"function": 161, "make_delay": 172},
+                            closure=["function", "limit", "delay", "catching"], part=part)
+               for outer, sleeper, base in (("_wrap_sync", "sleep_sync", "gSync"), ("_wrap_async", "sleep", "gAsync"))
+               for name, part in ((base + "Body", "loop_body"), (base, None))},
+        },
+        "obligations": [
+            *[ob for base, tag in (("gSync", "sync"), ("gAsync", "async")) for ob in (
+                (f"retry_{tag}_step", [base + "Body"], "RetryStep {%sBody.$counter} %sBody" % (base, base),
+                 "intro limit cats d outs a t s hinv\n  obtain ⟨h1, h2, h3, h4, h5, h6, h7, h8⟩ := hinv\n"
+                 f"  unfold {base}Body\n"
+                 "  rcases ho : outs a with v | ⟨c, n⟩\n  · retry_eval\n"
+                 "  · cases hc : isSub (toPy c) 2 <;> cases he : isSub (toPy c) 1 <;> cases hany : catches cats (toPy c) <;>\n"
+                 "      by_cases hal : a < limit <;> cases d <;> retry_eval"),
+                (f"retry_{tag}_refines", [base + "Body", base], f"RetryRefines {base}",
+                 "exact refines_of_step (iAtt := {%sBody.$counter}) (by decide) (fun _ => rfl) retry_%s_step" % (base, tag)),
+            )],
+        ],
+    },
     "queue": {
         "import": "Haiway.Bridge.Queue", "open": "Haiway.MiniPy Haiway.Bridge.Queue",
         "defs": {
@@ -227,11 +251,19 @@ def lean_text(group: str, repo: Path) -> tuple[str, dict[str, str], list[tuple[s
              f"/-! GENERATED from the repository's current source by harness/regen.py (group `{group}`); not committed. -/",
              f"open {g['open']}", "namespace Haiway.Regenerated"]
     status: dict[str, str] = {}
+    numbering: dict[str, dict[str, int]] = {}
+
+    def fill(text: str) -> str:
+        # `{def.local}` -> the number the translator gave that local in that definition
+        return re.sub(r"\{(\w+)\.([$\w]+)\}", lambda m: str(numbering[m.group(1)][m.group(2)]), text)
+
     for name, t in g["defs"].items():
         try:
             term, locs = translate(repo, t)
-            lines.append(f"/-- `{t.cls}.{t.method}` of {t.file}; locals {locs} -/\ndef {name} : Stmt := {term}")
+            sig = "(fuel : Nat) : Stmt" if "Stmt.loop fuel" in term else ": Stmt"
+            lines.append(f"/-- `{t.cls}.{t.method}` of {t.file}; locals {locs} -/\ndef {name} {sig} := {term}")
             status[name] = "ok"
+            numbering[name] = locs
         except (Unrecognised, OSError, SyntaxError) as exc:
             status[name] = f"{type(exc).__name__}: {exc}"
     skipped = []
@@ -241,7 +273,7 @@ def lean_text(group: str, repo: Path) -> tuple[str, dict[str, str], list[tuple[s
         if bad:
             skipped.append((ob, "; ".join(f"{n}: {status[n]}" for n in bad)))
             continue
-        lines.append(f"theorem {ob} : {stmt} := by\n  {script}")
+        lines.append(f"theorem {ob} : {fill(stmt)} := by\n  {fill(script)}")
         names.append(ob)
     lines.append("end Haiway.Regenerated")
     lines += [f"#print axioms Haiway.Regenerated.{n}" for n in names]
